@@ -675,7 +675,12 @@ class TorchBackendProvider(BackendProvider):
 
     def power(self, a, b):
         """Compute a^b, handling gradient tracking for torch tensors."""
+        if isinstance(a, numpy.ndarray) and a.dtype != object and isinstance(b, torch.Tensor):
+            a = torch.from_numpy(a).to(b.device)
         if isinstance(a, torch.Tensor):
+            if isinstance(b, numpy.ndarray) and b.dtype != object:
+                # e.g. the result of <scalar>^<tensor>, which is computed through numpy
+                b = torch.from_numpy(b).to(a.device)
             # Handle negative exponents - torch doesn't support int^negative
             if isinstance(b, torch.Tensor) and b.dtype in (torch.int8, torch.int16, torch.int32, torch.int64) and (b < 0).any():
                 base = a.float() if a.dtype in (torch.int8, torch.int16, torch.int32, torch.int64) else a
